@@ -5,6 +5,7 @@ import (
 	"encoding/json"
 	"errors"
 	"fmt"
+	"sort"
 	"strconv"
 
 	"github.com/go-openapi/jsonpointer"
@@ -223,6 +224,23 @@ func (operation *Operation) Validate(ctx context.Context, opts ...ValidationOpti
 	if v := operation.Servers; v != nil {
 		if err := v.Validate(ctx); err != nil {
 			return fmt.Errorf("invalid servers: %w", err)
+		}
+	}
+
+	if callbacks := operation.Callbacks; callbacks != nil {
+		names := make([]string, 0, len(callbacks))
+		for name := range callbacks {
+			names = append(names, name)
+		}
+		sort.Strings(names)
+		for _, name := range names {
+			v := callbacks[name]
+			if v == nil {
+				return fmt.Errorf("callback %q: value can't be null", name)
+			}
+			if err := v.Validate(ctx); err != nil {
+				return fmt.Errorf("callback %q: %w", name, err)
+			}
 		}
 	}
 
